@@ -65,7 +65,7 @@ def zero(sy, x):
         return False
 
 
-def fans(model, res):
+def fans(model, res, only_pde=False):
     cls = model.get_class(RIEMANN)
     mod = model.modules[UTILS]
     fi = model.get_func('%s:rho_p_u_rarefaction' % UTILS)
@@ -115,6 +115,8 @@ def fans(model, res):
         for label, val in (('mass', mass), ('momentum', mom), ('energy', en)):
             check(res, fi, '%s: %s equation' % (name, label), zero(sy, val),
                   "rho_p_u_rarefaction (%s): the fan formulas do not satisfy the %s equation of the Euler system" % (name, label))
+        if only_pde:
+            continue
         # (c) head: xi = u -+ a  ->  undisturbed state
         sgn = 1 if left else -1
         ev2 = NFEval(keys)
